@@ -81,3 +81,17 @@ reg("C17", "explore", "fault_enumeration",
     "no call may consult the transport repeatedly without progress, and the largest read request must not depend on a declared length.",
     "Trusted: reference decoder for the 'consistent result' clause; default configuration.",
     "DESIGN.md section 6 C17")
+
+reg("C09", "simnet", "fault_enumeration",
+    "exhaustive enumeration of handshake response recipes, redirect chains x limits and fault positions through the real connect() on a simulated network whose peer answers the request actually received",
+    "27648 response recipes (status x Upgrade x Connection x accept variant x subprotocols), redirect chains of every length 0..5 against every limit with four endings, "
+    "and EOF / timeout / reset at every byte of a valid response in the first and a redirected hop: connect() returns iff the reference predicate holds; "
+    "otherwise it raises, stays unconnected and every transport opened during the call is closed.",
+    "Trusted: the reference predicate in mc/props/c09.py and the request parser mc/ref/handshake.py; simulated sockets (mc/simnet.py).",
+    "DESIGN.md section 6 C09")
+reg("C10", "simnet", "exploration",
+    "bounded-exhaustive enumeration of (URL, options) combinations; the request bytes are checked by a strict hand-written parser and by the independent websockets.ServerProtocol",
+    "All 576 URL forms x option combinations (thorough: full cross product of 768 option tuples): bytes written before the first read are exactly one valid GET upgrade "
+    "request with the right target, Host rule, Upgrade/Connection/Version, a key that is the base64 of exactly one fresh 16-byte OS draw, and options reflected exactly.",
+    "Trusted: mc/ref/handshake.py parser, the websockets package as second opinion, the urandom recording shim.",
+    "DESIGN.md section 6 C10")
